@@ -845,13 +845,13 @@ package wire
 //@   props C06 C05 C10 C16 C19 C03 C18 C04
 //@   concurrent ServerShared(srv.Server)
 //@   requires HOK(srv, reader, writer, ctx) && conn != nil && srv.Server.wg.#wgcnt >= 0
-//@   requires [no-locks-held] {C16} !srv.Server.admission.#rheld && !srv.Server.admission.#wheld && srv.Server.wg.#held == 0
+//@   requires [no-locks-held] {C16} srv.Server.admission.#rheld == 0 && !srv.Server.admission.#wheld && srv.Server.wg.#held == 0
 //@   requires [caches-wellformed] PortalsWF(srv)
 //@   atreturn [terminate-stops] {C19} (t == 'X' && !srv.Server.closing.#aval) ==> result != nil
-//@   callsite (*wire.Session).handleCommand [registered] {C16} srv.Server.wg.#held == 1 && !srv.Server.admission.#rheld && !srv.Server.admission.#wheld
+//@   callsite (*wire.Session).handleCommand [registered] {C16} srv.Server.wg.#held == 1 && srv.Server.admission.#rheld == 0 && !srv.Server.admission.#wheld
 //@   ensures [no-progress-stops] {C04} reader.Buffer.#pos < old(reader.Buffer.#pos) + 5 ==> result != nil
 //@   ensures [admission] {C16} old(srv.Server.closing.#aval) ==> (#nParse == old(#nParse) && #nExec == old(#nExec) && #nTerminate == old(#nTerminate))
-//@   ensures [wg-balanced] {C16} srv.Server.wg.#held == 0 && !srv.Server.admission.#rheld && !srv.Server.admission.#wheld && srv.Server.wg.#wgcnt >= 0
+//@   ensures [wg-balanced] {C16} srv.Server.wg.#held == 0 && srv.Server.admission.#rheld == 0 && !srv.Server.admission.#wheld && srv.Server.wg.#wgcnt >= 0
 //@   ensures [error-once] #nE <= old(#nE) + 1
 //@   ensures [caches-wellformed] PortalsWF(srv)
 //@   ensures [ok] HOK(srv, reader, writer, ctx)
@@ -863,7 +863,7 @@ package wire
 //@ func (*Session).consumeCommands
 //@   props C05 C06 C12 C19 C03 C18 C04
 //@   requires HOK(srv, reader, writer, ctx) && conn != nil && srv.Server.wg.#wgcnt >= 0
-//@   requires [no-locks-held] {C16} !srv.Server.admission.#rheld && !srv.Server.admission.#wheld && srv.Server.wg.#held == 0
+//@   requires [no-locks-held] {C16} srv.Server.admission.#rheld == 0 && !srv.Server.admission.#wheld && srv.Server.wg.#held == 0
 //@   requires [caches-wellformed] PortalsWF(srv)
 //@   ensures [never-nil] result != nil
 //@   ensures [closed-monotone] #connClosed >= old(#connClosed)
@@ -871,7 +871,7 @@ package wire
 //@   modifies ConnEffects(srv, reader, writer, ctx), SharedServer(srv.Server)
 //@   loop 0
 //@     invariant [ok] HOK(srv, reader, writer, ctx) && srv.Server.wg.#wgcnt >= 0
-//@     invariant [no-locks-held] !srv.Server.admission.#rheld && !srv.Server.admission.#wheld && srv.Server.wg.#held == 0
+//@     invariant [no-locks-held] srv.Server.admission.#rheld == 0 && !srv.Server.admission.#wheld && srv.Server.wg.#held == 0
 //@     invariant [caches-wellformed] PortalsWF(srv)
 //@     invariant [ready-first] #nZ >= old(#nZ) + 1
 //@     invariant [closed-monotone] #connClosed >= old(#connClosed)
@@ -1008,7 +1008,7 @@ package wire
 //@ func (*Server).serve
 //@   props C01 C11 C12 C19 C07 C15 C04
 //@   requires srv != nil && conn != nil && ctx != nil && each(srv.typeExtensions, f, f != nil) && srv.Session != nil && srv.Statements != nil && srv.Portals != nil && srv.wg.#wgcnt >= 0
-//@   requires [no-locks-held] {C16} !srv.admission.#rheld && !srv.admission.#wheld && srv.wg.#held == 0
+//@   requires [no-locks-held] {C16} srv.admission.#rheld == 0 && !srv.admission.#wheld && srv.wg.#held == 0
 //@   requires [version-text] {C02} nulfree(srv.Version)
 //@   ensures [closes] {C01 C19} #connClosed >= old(#connClosed) + 1
 //@   callsite buffer.NewWriter [writer-on-upgraded] {C11} $writer == box(conn)
@@ -1037,13 +1037,13 @@ package wire
 //@   props C16 C04
 //@   concurrent ServerShared(srv)
 //@   requires srv != nil && srv.closer != nil && srv.wg.#wgcnt >= 0
-//@   requires [no-locks-held] {C16} !srv.admission.#rheld && !srv.admission.#wheld && srv.wg.#held == 0
+//@   requires [no-locks-held] {C16} srv.admission.#rheld == 0 && !srv.admission.#wheld && srv.wg.#held == 0
 //@   requires [closer-invariant] {C16} (chanclosed(srv.closer) ==> srv.closing.#aval) && (srv.closing.#mine ==> chanclosed(srv.closer))
 //@   ensures [closing-set] {C16} srv.closing.#aval && result == nil
 //@   ensures [owner-closed] {C16} srv.closing.#mine ==> chanclosed(srv.closer)
 //@   ensures [late-caller-never-owner] {C16} (old(srv.closing.#aval) && !old(srv.closing.#mine)) ==> !srv.closing.#mine
 //@   ensures [waited] {C16} srv.wg.#wgcnt == 0
-//@   ensures [locks-released] {C16} !srv.admission.#rheld && !srv.admission.#wheld
+//@   ensures [locks-released] {C16} srv.admission.#rheld == 0 && !srv.admission.#wheld
 //@   modifies SharedServer(srv), srv.closing.#mine
 
 // ---- options: each returns a closure applied by NewServer to the server under construction ----
